@@ -127,11 +127,27 @@ func c13(r *Run) {
 	// return must depend on all divisors (saturating on an intermediate quotient over-approximates the proportional change)
 	r.rule("C13.R4", "K5", "saturation of the proportional change is decided on the final quotient", 1)
 	if cn != nil {
-		for _, c := range callsTo(cn, func(n string) bool { return strings.HasPrefix(n, pkgIFees+".") }) {
+		// the proportional-change helpers called by the update, directly or through helpers that did not exist on the
+		// reference tree
+		var propCalls []ssa.CallInstruction
+		var collect func(f *ssa.Function, depth int)
+		collect = func(f *ssa.Function, depth int) {
+			for _, c := range callsTo(f, func(n string) bool { return strings.HasPrefix(n, pkgIFees+".") }) {
+				if g := transparentCallee(c); g != nil && depth < maxLiftDepth {
+					collect(g, depth+1)
+					continue
+				}
+				propCalls = append(propCalls, c)
+			}
+		}
+		collect(cn, 0)
+		seenH := map[*ssa.Function]bool{}
+		for _, c := range propCalls {
 			h := w.Fn(calleeName(c))
-			if h == nil || len(h.Params) < 3 {
+			if h == nil || len(h.Params) < 3 || seenH[h] {
 				continue
 			}
+			seenH[h] = true
 			okk := true
 			detail := ""
 			nsat := 0
@@ -205,6 +221,7 @@ func c13(r *Run) {
 		// the returned price: phi over {max on overflow, add result, 0 on underflow, sub result, previous} then clamped
 		outs := returnOutcomes(cn)
 		okk := len(outs) >= 1
+		clampMax := false
 		for _, o := range outs {
 			if len(o.Vals) != 2 {
 				okk = false
@@ -212,8 +229,13 @@ func c13(r *Run) {
 			}
 			v := term(o.Vals[0])
 			// clamp: value is phi(p5, X) where the p5 edge is taken when X < p5
-			if !(strings.HasPrefix(v, "phi(") && strings.Contains(v, "p5")) {
+			// ... or the same clamp written with the max builtin
+			isMax := strings.HasPrefix(v, "builtin.max(") && (strings.HasSuffix(v, ", p5)") || strings.HasPrefix(v, "builtin.max(p5, "))
+			if !(strings.HasPrefix(v, "phi(") && strings.Contains(v, "p5")) && !isMax {
 				okk = false
+			}
+			if isMax {
+				clampMax = true
 			}
 			for _, need := range []string{"18446744073709551615", "ago/utils/math.Add(p2, ", "ago/utils/math.Sub(p2, ", "0"} {
 				if !strings.Contains(v, need) {
@@ -239,7 +261,28 @@ func c13(r *Run) {
 				}
 			}
 		}
+		// the builtin forms: max(x, 1) for the unit floor, max(x, minPrice) as the returned value (on every path by construction)
+		eachInstr(cn, func(i ssa.Instruction) {
+			if c, ok := i.(*ssa.Call); ok && calleeName(c) == "builtin.max" && len(c.Call.Args) == 2 {
+				if a, b := term(c.Call.Args[0]), term(c.Call.Args[1]); a == "1" || b == "1" {
+					one++
+				}
+			}
+		})
+		clamp = clamp || (clampMax && len(outs) == 1)
 		r.check(clamp, "C13.R2", "min-price-clamp-on-every-path", w.rel(cn.Pos()), "", "the minimum-price clamp does not lie on every path to the return")
+		// ... or decided on the amounts handed to the checked add / subtract (the floor may sit in a helper)
+		floored := func(es []*effect) bool {
+			if len(es) != 1 {
+				return false
+			}
+			a := callArgs(es[0].Ins.(ssa.CallInstruction))
+			d := term(a[len(a)-1])
+			return strings.Contains(d, "phi(1, ") || strings.Contains(d, "builtin.max(") && (strings.Contains(d, ", 1)") || strings.Contains(d, "max(1, "))
+		}
+		if one != 2 && floored(adds) && floored(subs) {
+			one = 2
+		}
 		r.check(one == 2, "C13.R2", "change-at-least-one", w.rel(cn.Pos()), "", "the price change is not clamped to at least one unit in both directions")
 		// overflow/underflow edges
 		ovf := strings.Contains(term(outs[0].Vals[0]), "18446744073709551615")
